@@ -303,6 +303,78 @@ def showXmd (r : Except Err (List UInt8)) : String :=
   | .error e => e.show
   | .ok bs => "ok " ++ bytesToHex bs
 
+/-! ### the `hash.Hash` wrapper `ecc/<curve>/{fr,fp}/hash_to_field.New(dst)` as a state machine
+
+`Write(p)` appends a COPY of `p` (by-value semantics: what the caller does to its buffer afterwards is invisible),
+`Sum(b)` returns `b ‖ Bytes(Hash(absorbed, dst, 1)[0])` and leaves the state alone, `Reset` forgets the absorbed bytes,
+`Size` = `BlockSize` = `Bytes` of the field. `Props/C13.lean` (`C13_hist_*`) proves that every answer of a history depends only
+on the concatenation of the bytes written since the last `Reset`. -/
+
+inductive HOp where
+  | write (p : List UInt8)
+  | sum (b : List UInt8)
+  | reset
+  | size
+  | blockSize
+deriving Repr
+
+/-- state = the bytes absorbed so far -/
+def hstep (st : List UInt8) : HOp → List UInt8
+  | .write p => st ++ p
+  | .reset => []
+  | _ => st
+
+/-- digest of the wrapper: `Bytes()` (big-endian, `nb` bytes) of the single element `Hash(msg, dst, 1)[0]` -/
+def wrapDigest (H : List UInt8 → List UInt8) (q nb : Nat) (dst msg : List UInt8) : Except Err (List UInt8) :=
+  match hashToField H q msg dst 1 with
+  | .error e => .error e
+  | .ok xs => .ok (natToBE nb (xs.headD 0))
+
+/-- answer of one call in state `st`. `Sum` can not return an error through `hash.Hash`: the Go wrapper panics with the
+error of `Hash` (only possible for `|dst| > 255`); the harness renders that panic with the error class -/
+def hanswer (H : List UInt8 → List UInt8) (q nb : Nat) (dst st : List UInt8) : HOp → String
+  | .write p => "ok:" ++ toHex p.length
+  | .sum b =>
+    match wrapDigest H q nb dst st with
+    | .error e => e.show
+    | .ok d => bytesToHex (b ++ d)
+  | .reset => "ok"
+  | .size => toHex nb
+  | .blockSize => toHex nb
+
+def hrun (H : List UInt8 → List UInt8) (q nb : Nat) (dst : List UInt8) : List UInt8 → List HOp → List String
+  | _, [] => []
+  | st, op :: ops => hanswer H q nb dst st op :: hrun H q nb dst (hstep st op) ops
+
+/-- history tokens `W:<hex>[:<spare capacity>]`, `S:<hex>[:<spare capacity>]`, `R`, `Z` (Size), `B` (BlockSize); a suffix
+`/mut`, `/scr` describes what the CALLER does with its buffer after the call (harness side) and is not seen by the model,
+nor is the content of the spare capacity -/
+def parseHOp (tok : String) : Option HOp :=
+  match ((tok.splitOn "/").headD "").splitOn ":" with
+  | ["W", p] => some (.write (parseBytes p))
+  | ["W", p, _] => some (.write (parseBytes p))
+  | ["S", b] => some (.sum (parseBytes b))
+  | ["S", b, _] => some (.sum (parseBytes b))
+  | ["R"] => some .reset
+  | ["Z"] => some .size
+  | ["B"] => some .blockSize
+  | _ => none
+
+def splitOnBar (ws : List String) : List (List String) :=
+  let (acc, cur) := ws.foldl (fun (acc, cur) w => if w == "|" then (cur.reverse :: acc, []) else (acc, w :: cur)) ([], [])
+  (cur.reverse :: acc).reverse
+
+/-- the 16 generated wrapper packages `ecc/<curve>/{fr,fp}/hash_to_field` (field names of `Gen.allFields`) -/
+def wrapperPkgs : List String :=
+  ["bn254", "bls12_377", "bls12_381", "bls24_315", "bls24_317", "bw6_633", "bw6_761", "grumpkin"].flatMap
+    fun c => [c ++ "_fr", c ++ "_fp"]
+
+def histLine (fc : Gen.FieldConsts) (dst : List UInt8) (toks : List String) : String :=
+  " | ".intercalate ((splitOnBar toks).map fun h =>
+    match h.mapM parseHOp with
+    | none => "bad-op"
+    | some ops => " ".intercalate (hrun Sha256.hash fc.q fc.bytes dst [] ops))
+
 /-- line protocol (after the tag `C13`):
 * `xmd <msg> <dst> <len>`                       → `ok <bytes>` | `err:len` | `err:dst`
 * `h2f <field> <msg> <dst> <count>`             → `ok e0,e1,…` (regular values) | `err:…`
@@ -314,7 +386,9 @@ def showXmd (r : Except Err (List UInt8)) : String :=
 * `svdw <curve> <u>`                            → exact image `x;y` of the F_p SvdW template
 * `rfc <suite> <msg> <dst> <P>`                 → `P` (the published vector is the model answer)
 * `rfcu <field> <msg> <dst> <count> <u…>`       → model `h2f` answer, `model-mismatch` if it is not the published one
-* `rfcx <msg> <dst> <len> <bytes>`              → model `xmd` answer, `model-mismatch` if it is not the published one -/
+* `rfcx <msg> <dst> <len> <bytes>`              → model `xmd` answer, `model-mismatch` if it is not the published one
+* `h2fhist <field> <dst>[/mut] <tok…> [| <tok…>]…` → per history (fresh `New(dst)`), per call: `ok:<n>` (Write), `<b ‖ digest>` |
+  `err:dst` (Sum), `ok` (Reset), `<Bytes>` (Size, BlockSize); see `parseHOp` -/
 def handle (args : List String) : String :=
   match args with
   | ["xmd", msg, dst, len] => showXmd (xmdSha256 (parseBytes msg) (parseBytes dst) (parseHexD len))
@@ -322,6 +396,11 @@ def handle (args : List String) : String :=
     match lookupField field with
     | none => "bad-op"
     | some fc => showH2F (hashToField Sha256.hash fc.q (parseBytes msg) (parseBytes dst) (parseHexD count))
+  | "h2fhist" :: field :: dst :: toks =>
+    if !wrapperPkgs.contains field then "bad-op" else
+    match lookupField field with
+    | none => "bad-op"
+    | some fc => histLine fc (parseBytes ((dst.splitOn "/").headD "")) toks
   | ["map", curve, _grp, tower, p, a, b, r, _u, P] =>
     match fieldOfCurve curve with
     | none => "bad-op"
